@@ -78,7 +78,24 @@ for (kind, site), a in sorted(by_sig.items()):
     finally:
         srv.stop()
 
-cov = {"evaluations": summary["executed"], "distinct_nontrivial": summary["distinct_outcome_classes"],
+# ---- expiry-window phase (lib/expwin.py): every command against keys that are "expired but present" and against keys whose
+# purge timer is firing; real binary over TCP, so every anomaly is a verdict by itself
+import expwin
+expstats = []
+for variant in ("window", "timer") * (1 if tier == "quick" else 4):
+    for attempt in range(3):
+        an, st = expwin.run_variant(variant)
+        if an is not None:
+            break
+    expstats.append(st)
+    for a in an or []:
+        confirmed += 1
+        name = (a["argv"][0].lower() if a.get("argv") else "server")
+        v.report({"branch": "expiry-window." + name, "kind": a["kind"], "detail": a.get("type", "")}, a,
+                 what="%s on a key whose deadline second has passed while its purge timer %s: %s" % (
+                     " ".join(a["argv"]) if a.get("argv") else "server", "has not fired yet" if a["variant"] == "window" else "is firing", a["detail"][:300]))
+
+cov = {"evaluations": summary["executed"] + sum(s.get("commands", 0) for s in expstats), "expiry_window_phase": expstats, "distinct_nontrivial": summary["distinct_outcome_classes"],
        "rule": "every registered command name (from the real CmdTable, %d names incl. select and an unknown name) x 3 letter cases (<=1 arg) x every "
                "argument vector of length 0..%d over the %d-token adversarial alphabet of spec/Robust.tla, plus every single-point mutation "
                "(truncate/delete/duplicate/swap/replace-by-token, Robust.tla Mutations) of the %d valid commands of the MC_* instances; "
@@ -92,4 +109,5 @@ cov = {"evaluations": summary["executed"], "distinct_nontrivial": summary["disti
 v.finish(tier, "fault_enumeration", cov, ["input space = spec/Robust.tla (TLC prints tokens and mutation samples; the Go mutation operator is cross-checked against TLC's evaluation on every run)",
                                           "monitor evaluated in Go after every input: no panic, reply within 2 s (3 s for 1-second blocking pops), every lock stripe free, probes answer",
                                           "verdicts only from reproduction on the real server binary over TCP",
+                                          "expiry-window phase: deadlines are set at S+0.62..0.70 with a TTL of 1 s, commands fired at S+1.06 (window) or 4 ms before the first timer (timer); a run whose EXPIREs straddle a second boundary is repeated",
                                           "legitimately blocking inputs (BLPOP/BRPOP with timeout 0 or >= 2) are skipped and counted; tokens demanding >= 10^7 units of legitimate work are not in the alphabet"])
